@@ -147,7 +147,7 @@ def written_args(func):
 
 class Engine(TorchDispatchMode):
     def __init__(self, witness=None, prefix=(), seed=0, crosscheck=True, trace_functions=True, cut_sites=(), floor_cut=False,
-                 range_mode="assume", item_whitelist=()):
+                 range_mode="assume", item_whitelist=(), symfloat_sites=()):
         super().__init__()
         self.store = {}
         self.keep = []
@@ -186,6 +186,7 @@ class Engine(TorchDispatchMode):
         self.cstore = {}  # complex storages: key -> (re flat array, im flat array)
         self.strict_crosscheck = True
         self.item_whitelist = tuple(item_whitelist)
+        self.symfloat_sites = tuple(symfloat_sites)  # functions whose float .item() results stay symbolic in comparisons
         self.mismatches = 0
         self.stub_log = []
         self.tie_flips = 0
@@ -670,6 +671,55 @@ def _same_cell(a, b):
 from torch.overrides import TorchFunctionMode  # noqa: E402
 
 
+class SymFloat(float):
+    """a Python float that remembers the real-sorted term it was read from: comparisons against numbers become recorded
+    decisions of the engine (forks with path conditions) instead of silent concretisations; anything else it is used for
+    (formatting, arithmetic) sees the witness value, and arithmetic taints the path"""
+
+    def __new__(cls, v, term, eng):
+        o = float.__new__(cls, v)
+        o._t, o._e = term, eng
+        return o
+
+    def _other(self, other):
+        if isinstance(other, SymFloat):
+            return other._t
+        if isinstance(other, bool) or not isinstance(other, (int, float)):
+            return None
+        return Fraction(other)
+
+    def _cmp(self, mk, other):
+        ot = self._other(other)
+        if ot is None:
+            return NotImplemented
+        return self._e.decide(mk(self._t, ot), "symfloat:" + self._e.where())
+
+    def __lt__(self, o):
+        return self._cmp(T.lt, o)
+
+    def __le__(self, o):
+        return self._cmp(T.le, o)
+
+    def __gt__(self, o):
+        return self._cmp(T.gt, o)
+
+    def __ge__(self, o):
+        return self._cmp(T.ge, o)
+
+    __hash__ = float.__hash__
+
+    def _arith(name):
+        def f(self, *a):
+            self._e.tainted.append("arithmetic on a symbolic python float at " + self._e.where())
+            return getattr(float, name)(float(self), *[float(x) if isinstance(x, SymFloat) else x for x in a])
+        return f
+
+    for _n in ("__add__", "__radd__", "__sub__", "__rsub__", "__mul__", "__rmul__", "__truediv__", "__rtruediv__", "__pow__", "__neg__",
+               "__abs__"):
+        locals()[_n] = _arith(_n)
+    del _n, _arith
+
+
 class PyLevelGuard(TorchFunctionMode):
     """Tensor.tolist() / .numpy() read memory directly and never reach the dispatcher: route them through .item() (which does)
     so that symbolic integers / booleans flowing into Python become recorded choices instead of silent concretisations."""
@@ -695,6 +745,14 @@ class PyLevelGuard(TorchFunctionMode):
                 return [rec(x[i]) for i in range(x.shape[0])]
 
             return rec(t)
+        if func is torch.Tensor.item and args and self.eng.symfloat_sites and self._symbolic(args[0]) and args[0].numel() == 1 \
+                and args[0].dtype.is_floating_point:
+            eng = self.eng
+            site = eng.where()
+            if any(site.split(":")[-1] == w for w in eng.symfloat_sites):
+                c = eng.view(args[0]).reshape(-1)[0]
+                if T.is_term(c):
+                    return SymFloat(float(T.evalf([c], eng.env)[0]), c, eng)
         if func in (torch.Tensor.numpy, torch.Tensor.__array__) and args and self._symbolic(args[0]):
             raise UnsupportedOp("Tensor.numpy() on symbolic data")
         return func(*args, **kwargs)
